@@ -14,7 +14,7 @@
 #include <unistd.h>
 
 static int counts[16];
-static const char *KINDS[] = {"rename", "link", "symlink", "unlink", "mkdir", "create", "copy", 0};
+static const char *KINDS[] = {"rename", "link", "symlink", "unlink", "mkdir", "create", "copy", "fsync", 0};
 
 static int fault_errno(void) {
     const char *e = getenv("FAULT_ERRNO");
@@ -63,6 +63,8 @@ int symlink(const char *a, const char *b) { REAL(symlink); if (pre("symlink")) r
 int symlinkat(const char *a, int fb, const char *b) { REAL(symlinkat); if (pre("symlink")) return -1; int r = real(a, fb, b); post("symlink"); return r; }
 int unlink(const char *a) { REAL(unlink); if (pre("unlink")) return -1; int r = real(a); post("unlink"); return r; }
 int unlinkat(int fa, const char *a, int fl) { REAL(unlinkat); if (pre("unlink")) return -1; int r = real(fa, a, fl); post("unlink"); return r; }
+int fsync(int fd) { REAL(fsync); if (pre("fsync")) return -1; int r = real(fd); post("fsync"); return r; }
+int fdatasync(int fd) { REAL(fdatasync); if (pre("fsync")) return -1; int r = real(fd); post("fsync"); return r; }
 int mkdir(const char *a, mode_t m) { REAL(mkdir); if (pre("mkdir")) return -1; int r = real(a, m); post("mkdir"); return r; }
 
 static int is_create(int flags) { return (flags & O_CREAT) != 0; }
